@@ -144,6 +144,36 @@ claim("C19", "config",
       "event loops are inert stand-ins behind the streamz.core.IOLoop / threading seams (binding and thread creation observed, callbacks not run); mode compared by truthiness; joining two already conflicting pipelines without an explicit contradicting request is not generated",
       "DESIGN.md §3 C19")
 
+claim("C06", "frames",
+      "exhaustive enumeration of small tables x all batch splits (with empty batches) on the real streaming-dataframe pipeline, pandas on the prefix as reference model",
+      "Series / DataFrame sum, count, size, mean, expanding var/std (the public route to a running variance), value_counts, groupby(column | streaming series) sum/count/size/mean/var/std, and elementwise trees of depth <= 2 "
+      "(+scalar, *column, comparison, [mask], [[cols]], assign) per batch and under sum / groupby.sum (batches emptied by an upstream filter): every table of up to R rows over values {1,2,NaN} x keys {a,b}, every composition into "
+      "consecutive batches with up to E empty batches at every position, each on a fresh pipeline, compared after every batch with pandas on concat(batches[:k]) whenever that prefix has a row.",
+      "quick R<=3, E<=1; thorough R<=4 E<=2 (+R=5 for Series reductions; groupby families bounded per family, recorded in the evidence); numeric tolerance 1e-9, NaN == NaN, dtype-only differences ignored",
+      "DESIGN.md §3 C06")
+
+claim("C07", "frames",
+      "exhaustive enumeration of tables x splits x window sizes / durations, pandas on the window slice as reference model",
+      "window(n=N) for N in 1..3 and window(value=T) for T in {1s,2s,3s} on a seconds grid and {1ns,2ns} on a nanosecond grid (duplicate timestamps, rows exactly on and next to the edge): sum, count, mean, var, std, size, value_counts, full window, "
+      "groupby(column | series) sum/count/size/mean/var/std; after every batch the result must equal pandas on the last N rows / on rows with index > newest - T; every present value with its exact statistic, vanished groups gone; "
+      "a long single-value table family makes one batch evict two whole earlier batches of different lengths.",
+      "quick R<=3 E<=1; thorough per-family bounds up to R=5 (recorded in the evidence); zero-count leftovers in windowed value_counts are tolerated as the statement allows",
+      "DESIGN.md §3 C07")
+
+claim("C11", "frames",
+      "exhaustive enumeration of tables x splits for rolling (rows and time), cumulative, expanding and ewm aggregations, pandas in one pass as reference model",
+      "rolling(w in 1..3).{sum,mean,min,max,count,std,var,median}, rolling('1ns'|'2ns').{sum,count,max}, cumsum/cumprod/cummin/cummax, expanding().{sum,mean,count,var,std}, ewm(com=1 | alpha=.5).mean(): "
+      "concat(emitted) (rolling, cumulative) resp. the value emitted per batch (expanding, ewm) must equal the one-pass pandas result for every split incl. empty batches and batches shorter than the window.",
+      "quick R<=3 E<=1, thorough R<=4 E<=2 (+R=5 E=1); known findings: ewm with NaN rows, expanding().sum() on an all-NaN prefix",
+      "DESIGN.md §3 C11")
+
+claim("C12", "frames",
+      "exhaustive enumeration of batch sequences x every cut point: uninterrupted run vs pipeline resumed from the captured state (twice, after the original has moved on)",
+      "For every batch sequence and every cut k the states exposed by the uninterrupted run (with_state=True / emitted value for reductions / (sum,count) for mean) are captured while the original pipeline goes on; a fresh pipeline seeded with start=<state k> "
+      "must reproduce the uninterrupted suffix and the same subsequent states, also on a second resume from the same state object (aliasing of captured state is thereby visible).",
+      "aggregations without start=/with_state support (GroupBy.size/var/std, Frame.size, unwindowed value_counts, cumulative) are not covered and listed in the evidence notes; quick R<=3, thorough R<=4",
+      "DESIGN.md §3 C12")
+
 ALL = ["C%02d" % i for i in range(1, 21)]
 
 
